@@ -541,7 +541,7 @@ fn destructure(p: &str) -> Option<(bool, String, Vec<u32>)> {
     Some((neg, ip.to_string(), fr.bytes().map(|b| (b - b'0') as u32).collect()))
 }
 
-fn direct_print_scan(s: i32) -> Result<(String, String, String), String> {
+fn direct_print_scan(s: i32) -> Result<(String, String, String, String), String> {
     caught(|| {
         let sc = Scaled(s);
         let d = sc.display_no_units().to_string();
@@ -550,7 +550,11 @@ fn direct_print_scan(s: i32) -> Result<(String, String, String), String> {
             Ok(v) => format!("ok:{}", v.0),
             Err(_) => "overflow".to_string(),
         };
-        (d, full, back)
+        let back2 = match Scaled::parse_from_string(&full) {
+            Ok(v) => format!("ok:{}", v.0),
+            Err(_) => "overflow".to_string(),
+        };
+        (d, full, back, back2)
     })
 }
 
@@ -558,7 +562,7 @@ impl C06 {
     fn ps_check_one(&self, o: &mut CaseOutcome, drv: &mut Driver, s: i64, reply: &str, stream: &str) {
         // reply = "<str>:<scan>:<specok>" or "panic"
         let got = direct_print_scan(s as i32);
-        let (d, full, back) = match got {
+        let (d, full, back, back2) = match got {
             Err(loc) => {
                 o.fail(Kind::ImplPanic, stream, format!("{stream}: panic {}", ploc(&loc)), format!("s={s}: panic at {loc}"));
                 return;
@@ -598,6 +602,9 @@ impl C06 {
         if in_range && back != format!("ok:{s}") {
             o.fail(Kind::ImplVsSpec, stream, format!("{stream}: scan(print s) != s"), format!("s={s}: printed {d:?}, scanned back {back}"));
             spec_failed = true;
+        }
+        if in_range && back2 != format!("ok:{s}") {
+            o.fail(Kind::ImplVsSpec, stream, format!("{stream}: parse_from_string(Display s) != s"), format!("s={s}: printed {full:?}, parse_from_string gives {back2}"));
         }
         if !spec_failed && (d != mstr || back != mscan) {
             o.fail(Kind::ImplVsModel, stream, format!("{stream}: model"), format!("s={s}: impl {d:?} {back}; model {mstr:?} {mscan}"));
